@@ -235,3 +235,72 @@ func ZZ_C16_RestartAfterGrow() {
 	zzExtentsSupported = false
 	zzReach("C16.restart.done")
 }
+
+// C17 / C14 (the open replica is only ever changed under the server lock): while another
+// request holds the server's write lock - a reload or a revert about to swap in a new
+// Replica object, a close, a delete - no other management or data-path entry point
+// touches the directory or the replica; once the lock is released it runs, on the replica
+// that is live then.
+func ZZ_C17_ServerMutualExclusion() {
+	fs := zzInstallFS()
+	ActionChannel = make(chan string, 5)
+	r := zzPreState(fs, 2)
+	s := &Server{Dir: zzDir, defaultSectorSize: 4096, MonitorChannel: make(chan struct{}), r: r}
+	ops := []string{"Snapshot", "Revert", "Reload", "Resize", "SetRebuilding", "SetCheckpoint", "SetReplicaMode", "SetRevisionCounter", "Close", "Delete",
+		"RemoveDiffDisk", "PrepareRemoveDisk", "UpdateCloneInfo", "WriteAt", "Unmap", "Open", "Open", "ReplaceDisk"}
+	op := zzConcretize(zzChoice("op", len(ops)))
+	before := zzMemDigest(r)
+	cell := zzCell()
+	s.Lock() // another request is being served
+	fs.MutSteps = 0
+	done := make(chan bool, 1)
+	go func() {
+		buf := make([]byte, 4096)
+		switch op {
+		case 0:
+			s.Snapshot("x", true, "t")
+		case 1:
+			s.Revert("volume-snap-a.img", "t")
+		case 2:
+			s.Reload()
+		case 3:
+			s.Resize("16K")
+		case 4:
+			s.SetRebuilding(true)
+		case 5:
+			s.SetCheckpoint("volume-snap-a.img")
+		case 6:
+			s.SetReplicaMode("WO")
+		case 7:
+			s.SetRevisionCounter(cell + 9)
+		case 8:
+			s.Close()
+		case 9:
+			s.Delete()
+		case 10:
+			s.RemoveDiffDisk("volume-snap-a.img")
+		case 11:
+			s.PrepareRemoveDisk("volume-snap-a.img")
+		case 12:
+			s.UpdateCloneInfo("a", "5")
+		case 13:
+			s.WriteAt(buf, 0)
+		case 14:
+			s.Unmap(0, 4096)
+		case 15, 16:
+			s.Open()
+		default:
+			s.ReplaceDisk("volume-snap-a.img", "volume-snap-b.img")
+		}
+		done <- true
+	}()
+	zzSettle()
+	zzAssert(s.r == r, "C17.server-mutex."+ops[op]+".replaced-the-open-replica-while-another-request-holds-the-lock")
+	zzAssert(fs.MutSteps == 0, "C17.server-mutex."+ops[op]+".touched-the-directory-while-another-request-holds-the-lock")
+	zzAssert(zzSameAttrs(before, zzMemDigest(r)) && zzCell() == cell && r.mode == types.RW, "C17.server-mutex."+ops[op]+".changed-the-replica-while-another-request-holds-the-lock")
+	s.Unlock()
+	zzSettle()
+	zzAssert(len(done) == 1, "C17.server-mutex."+ops[op]+".never-completed-after-the-lock-was-released")
+	zzAssert(zzLockDepth(&s.RWMutex) == 0, "C17.server-mutex.lock-left-held")
+	zzReach("C17.server-mutex.done")
+}
